@@ -461,3 +461,8 @@ Definition filter_pre (f : filter) (x : bytes) : Prop :=
   | FShuffle e => x = [] \/ (0 < e /\ N.of_nat (length x) mod e = 0)
   | _ => True
   end.
+
+(* specification vocabulary used by the property statements *)
+Definition bytes_ok (d : bytes) : Prop := Forall (fun b => b < 256) d.
+(* element size as the writer stores it: a uint32 *)
+Definition filter_wf (f : filter) : Prop := match f with FShuffle e => e < 4294967296 | _ => True end.
